@@ -9,7 +9,7 @@ T_MON = {
 T_MON["C10"] = ["M_EncodeIsSpec", "M_RoundTrip", "M_OrderPreserved", "M_PrefixEndIsSpec", "M_PrefixMembership", "M_BoundsEnclose", "M_ParseRevisionIsSpec"]
 T_MON["C14"] = ["M_RecordTracked", "M_NeverSilentlyOverwritten", "M_ConditionalLockWrite", "M_GetReturnsRecord", "M_CreateOnlyIfAbsent",
                 "M_AtMostOneCreate", "M_UpdateOnlyIfUnchanged", "M_NoTwoFromSameObserved"]
-T_MON["C15"] = ["M_NewRevisionsAboveStored", "M_GuardedWritesKeepWorking", "M_OldDataVisible"]
+T_MON["C15"] = ["M_NewRevisionsAboveStored", "M_GuardedWritesKeepWorking", "M_OldDataVisible", "M_NoPanic"]
 T_MODULE = {"C11": "TraceStorage.tla", "C10": "TraceCoder.tla", "C14": "TraceElection.tla", "C15": "TraceElection.tla"}
 
 
@@ -180,6 +180,10 @@ def check_election(prop, tier, seed):
         cov["samples"] = [json.loads(x) for x in (rep.get("samples") or [])[:2]]
         log("electrun: %d interleavings x 4 engines, %d agree, %d mismatch" % (rep.get("behaviours", 0), rep.get("agreed", 0), rep.get("obs_mismatch", 0)))
         ntr, v = validate_all(work, traces, T_MON[prop], module="TraceElection.tla", chunks=8)
+        if not v:
+            # the lock's create / update are single conditional batches: their atomicity under real parallelism, on every engine
+            import fam_write
+            v = fam_write.race_part(work, binp, cov, quick, seed)
         cov["traces_validated_against_impl"] = ntr
         if v:
             violations += 1
@@ -222,6 +226,8 @@ def check_restart(prop, tier, seed):
             for i, (fails, succ, stop) in enumerate(variants):
                 tr = os.path.join(d, "lead_%s_%d.ndjson" % (eng, i)); rp = os.path.join(d, "lead_%s_%d.json" % (eng, i))
                 c = [binp, "leadrun", "-engine", eng, "-out", tr, "-report", rp, "-fails", str(fails), "-succ", str(succ), "-stopafter", str(stop)]
+                if i % 3 == 0:
+                    c.append("-future")     # the old leader also refuses a guarded update naming a revision far in the future
                 if i % 2 == 1:
                     c.append("-follower")   # the new leader is a node that served a read as follower before the old leader's last writes
                 procs.append((c, eng, tr, rp))
